@@ -443,6 +443,39 @@ func checkC12(c *vkit.Ctx) {
 			c.Case(vkit.Hash("derived", o.Name, seq, via, copyAt), true)
 		}
 	}
+	// Configs built by WithConfig are independent of each other and of the defaults, also
+	// the ones built without options: options are exported funcs and may be applied to any
+	// *Config a caller holds
+	if os.Getenv("VERIF_RACE_BUILD") != "1" && c.P.Shard == 0 {
+		in := map[string]any{"sub": "independence of zero-option Configs"}
+		c.Guard(in, func() {
+			snaps.VerifResetProcessState()
+			fp0 := fingerprint(snaps.WithConfig())
+			a := snaps.WithConfig()
+			snaps.Filename("only-for-a")(a)
+			snaps.Update(true)(a)
+			snaps.Ext(".a")(a)
+			if fp := fingerprint(snaps.WithConfig()); fp != fp0 {
+				c.Violate("defaults-changed", "", fmt.Sprintf("options applied to the Config returned by WithConfig() show up in the next WithConfig(): %s -> %s", fp0, fp), in)
+			}
+			// and in the package-level functions: a mismatch must still be reported with UPDATE_SNAPS unset
+			root := vkit.MkScratch("c12z")
+			defer os.RemoveAll(root)
+			snaps.VerifSetMode(false, "")
+			snaps.VerifSetNoColor(true)
+			t1 := vkit.NewT("TestZ")
+			snaps.WithConfig(snaps.Dir(root), snaps.Filename("z")).MatchSnapshot(t1, "one")
+			t1.Take()
+			t1.Finish()
+			t2 := vkit.NewT("TestZ")
+			snaps.WithConfig(snaps.Dir(root), snaps.Filename("z")).MatchSnapshot(t2, "two")
+			if o := vkit.Classify(t2.Take()); o != vkit.Failed {
+				c.Violate("defaults-changed", "", "after Update(true) was applied to the Config returned by WithConfig(), a Config without Update option rewrote a mismatching snapshot: "+o, in)
+			}
+			t2.Finish()
+			c.Count("zero_option_config_independence_checks", 1)
+		})
+	}
 	// re-entrant use: a Custom callback of a call through Config A takes a snapshot through
 	// Config B (other JSON options); A's text must still be laid out by A's options
 	if os.Getenv("VERIF_RACE_BUILD") != "1" {
